@@ -202,6 +202,15 @@ def model_runs(tier):
              "constants": {"KSet": "{1, 2, 3}", "KinSet": "{1, 2}", "MaxEm": 30, "MaxCall": 9}}]
 
 
+def attach_runs(tier, size="full"):
+    """Plan.tla as an attached specification of another check (C14: exit codes of steps): every third scenario."""
+    runs = model_runs(tier)
+    return [dict(r, stride=3) for r in runs] if size == "medium" else runs
+
+
+ATTACH = {"spec": "Plan.tla", "trace_module": "Trace_C15", "model_runs": attach_runs, "chunk": 400}
+C14_CLAUSES = ("exit_code_expected",)
+
 from .basic import C15_CLAUSES as _BASIC_CLAUSES  # noqa: E402
 
 CHECK = PropertyCheck(
